@@ -243,7 +243,11 @@ impl CanonicalRequest {
                         }
                     };
 
-                    query_parameters.extend(query_string_to_normalized_map(body_query.as_str())?);
+                    // Treat body parameters as if they had been appended to the query string: a name occurring in
+                    // both keeps its URL values, followed by its body values.
+                    for (key, values) in query_string_to_normalized_map(body_query.as_str())? {
+                        query_parameters.entry(key).or_default().extend(values);
+                    }
                     // Rebuild the parts URI with the new query string.
                     let qs = canonicalize_query_to_string(&query_parameters);
                     trace!("Rebuilding URI with new query string: {}", qs);
